@@ -34,8 +34,6 @@ def kSize : List UInt8 := [83, 105, 122, 101]
 def kIndex : List UInt8 := [73, 110, 100, 101, 120]
 /-- `W` -/
 def kW : List UInt8 := [87]
-/-- `Length` -/
-def kLengthK : List UInt8 := [76, 101, 110, 103, 116, 104]
 /-- `Prev` -/
 def kPrev : List UInt8 := [80, 114, 101, 118]
 /-- `Root` -/
@@ -60,10 +58,6 @@ def xrefInfoDict (i : SaveInfo) : Dict R :=
 
 /-- `Stream<XRefInfo>::to_primitive`: what `fulfill(xref_promise, stream)` leaves pending -/
 def xrefStreamVal (i : SaveInfo) : Prim R := .stream (xrefInfoDict i) (.pending (rowsData i))
-
-/-- values are primitives; a value can be written iff the writer model returns bytes for it -/
-def params (fmt : R → List UInt8) : Params (Prim R) :=
-  ⟨fun v => (serialize fmt v).isOk, xrefStreamVal⟩
 
 /-- the abstract document over primitives, the `/ID` strings of its trailer, and the backend bytes -/
 structure BDoc (R : Type) where
@@ -95,6 +89,15 @@ def framesOf (fmt : R → List UInt8) (changes : List (Nat × Prim R × Nat)) : 
 def xrefDict (tr : Trailer (Prim R)) (ids : List (List UInt8)) (infoRef : Option Nat) (i : SaveInfo) : Dict R :=
   mergeDict (xrefInfoDict i) (trailerDict i.size tr infoRef ids)
 
+/-- the cross-reference stream object as it stands in the file -/
+def xrefRecVal (ids : List (List UInt8)) (tr : Trailer (Prim R)) (infoRef : Option Nat) (i : SaveInfo) : Prim R :=
+  .stream (xrefDict tr ids infoRef i) (.pending (rowsData i))
+
+/-- values are primitives; a value can be written iff the writer model returns bytes for it; `ids` are the
+    `/ID` strings of the trailer (they never change) -/
+def params (fmt : R → List UInt8) (ids : List (List UInt8)) : Params (Prim R) :=
+  ⟨fun v => (serialize fmt v).isOk, xrefStreamVal, xrefRecVal ids⟩
+
 /-- the cross-reference stream object: `"{id} 0 obj\n"`, the stream, `"endobj\n"` -/
 def xrefObjBytes (fmt : R → List UInt8) (tr : Trailer (Prim R)) (ids : List (List UInt8)) (infoRef : Option Nat)
     (i : SaveInfo) : List UInt8 :=
@@ -121,10 +124,54 @@ def revisionBytes (fmt : R → List UInt8) (b : BDoc R) (i : SaveInfo) : List UI
     attempt is truncated away). (Not covered: `Trailer::from_dict` failing *after* the revision was
     written — the catalog no longer resolves — where the real backend keeps the revision.) -/
 def saveB (fmt : R → List UInt8) (b : BDoc R) : BDoc R × Out SaveInfo :=
-  match save (params fmt) (layoutOf fmt b) b.doc with
+  match save (params fmt b.ids) (layoutOf fmt b) b.doc with
   | (d', .ok i) => (⟨d', b.ids, b.bytes ++ revisionBytes fmt b i⟩, .ok i)
   | (d', .err) => (⟨d', b.ids, b.bytes⟩, .err)
   | (d', .panic) => (⟨d', b.ids, b.bytes⟩, .panic)
   | (d', .oof) => (⟨d', b.ids, b.bytes⟩, .oof)
+
+/-! ### histories at byte level: `save` takes its record lengths from the values -/
+
+inductive OpB (R : Type) where
+  | create (v : Prim R)
+  | update (id : Nat) (v : Prim R)
+  | promise
+  | fulfil (id : Nat) (v : Prim R)
+  | get (id : Nat)
+  | resolve (id : Nat)
+  | save
+
+/-- the operation of the abstract model; `L` is the layout a `save` is run with -/
+def OpB.toOp (L : Layout) : OpB R → Op (Prim R)
+  | .create v => .create v
+  | .update id v => .update id v
+  | .promise => .promise
+  | .fulfil id v => .fulfil id v
+  | .get id => .get id
+  | .resolve id => .resolve id
+  | .save => .save L
+
+def stepB (fmt : R → List UInt8) (b : BDoc R) : OpB R → BDoc R × Res (Prim R)
+  | .save =>
+    match saveB fmt b with
+    | (b', .ok i) => (b', .saved i)
+    | (b', .err) => (b', .failed .err)
+    | (b', .panic) => (b', .failed .panic)
+    | (b', .oof) => (b', .failed .oof)
+  | o =>
+    let r := step (params fmt b.ids) b.doc (o.toOp ⟨fun _ => 1, fun _ => 1, fun _ => 0⟩)
+    ({ b with doc := r.1 }, r.2)
+
+def runB (fmt : R → List UInt8) (b : BDoc R) : List (OpB R) → BDoc R × List (Res (Prim R))
+  | [] => (b, [])
+  | op :: ops =>
+    let r := stepB fmt b op
+    let rs := runB fmt r.1 ops
+    (rs.1, r.2 :: rs.2)
+
+/-- the same history for the abstract model: every `save` with the layout the values give it -/
+def liftOps (fmt : R → List UInt8) (b : BDoc R) : List (OpB R) → List (Op (Prim R))
+  | [] => []
+  | op :: ops => op.toOp (layoutOf fmt b) :: liftOps fmt (stepB fmt b op).1 ops
 
 end SaveBytes
